@@ -1467,8 +1467,10 @@ def parse_model(out):
     return m
 
 
-def discharge(obls, cap, jobs, outdir, solver='z3', portfolio=True):
-    """run every obligation (negated goal) through the solver in parallel; sets verdict unsat/sat/unknown"""
+def discharge(obls, cap, jobs, outdir, solver='z3', portfolio=True, stop_after_sat=None):
+    """run every obligation (negated goal) through the solver in parallel; sets verdict unsat/sat/unknown.
+    stop_after_sat=N: once N obligations of this batch have counterexamples, the obligations not yet started are not run (verdict unknown, o.skipped = True):
+    a changed tree can turn hundreds of easy unsat queries into hard sat/unknown ones, and the batch already has its violations to report"""
     os.makedirs(outdir, exist_ok=True)
     tasks = []
     for i, o in enumerate(obls):
@@ -1476,8 +1478,16 @@ def discharge(obls, cap, jobs, outdir, solver='z3', portfolio=True):
         open(fn, 'w').write(o.smt2())
         o.file = fn
         tasks.append((fn, cap, solver))
+    state = {'sat': 0}
+    def guarded(t):
+        if stop_after_sat and state['sat'] >= stop_after_sat: return 'skipped', 0.0
+        out, dt = _run_solver(t)
+        if out.strip().startswith('sat'): state['sat'] += 1
+        return out, dt
     with ThreadPoolExecutor(max_workers=jobs) as ex:
-        res = list(ex.map(_run_solver, tasks))
+        res = list(ex.map(guarded, tasks))
+    for o, (out, dt) in zip(obls, res):
+        if out == 'skipped': o.skipped = True
     def classify(out):
         first = out.strip().split('\n')[0] if out.strip() else 'unknown'
         if '(error' in out and first != 'unsat':
@@ -1491,7 +1501,8 @@ def discharge(obls, cap, jobs, outdir, solver='z3', portfolio=True):
         o.verdict = classify(out)
         if o.verdict == 'sat': o.model = parse_model(out)
     # second pass: a portfolio of solver configurations for what the default configuration left open
-    hard = [o for o in obls if o.verdict == 'unknown']
+    hard = [o for o in obls if o.verdict == 'unknown' and not getattr(o, 'skipped', False)]
+    if stop_after_sat and state['sat'] >= stop_after_sat: hard = []
     if hard and portfolio and solver == 'z3':
         tasks = [(o.file, cap, 'z3:' + cfg) for o in hard for cfg in PORTFOLIO]
         with ThreadPoolExecutor(max_workers=jobs) as ex:
